@@ -361,6 +361,7 @@ class Interp:
             return
         roles = []
         vi = 0
+        ramp_role = {}
         for x in idx:
             if isinstance(x, ast.Slice):
                 if vi >= len(v.roles):
@@ -368,6 +369,17 @@ class Interp:
                     return
                 roles.append(v.roles[vi])
                 vi += 1
+            elif isinstance(x, ast.Name) and x.id in getattr(self, "ramps", ()):
+                # A[:, k, k] = rows with k = arange(n): the (line, k) values go on the diagonal of every line's matrix
+                if x.id in ramp_role:
+                    roles.append(ramp_role[x.id])
+                else:
+                    if vi >= len(v.roles):
+                        self.assign_name(name, None)
+                        return
+                    ramp_role[x.id] = v.roles[vi]
+                    roles.append(v.roles[vi])
+                    vi += 1
             elif isinstance(x, ast.Name) and x.id in self.scalar_role and self.scalar_role[x.id] is not None:
                 roles.append(self.scalar_role[x.id])
             else:
@@ -384,6 +396,10 @@ class Interp:
             if isinstance(s, ast.Assign) and len(s.targets) == 1:
                 t = s.targets[0]
                 if isinstance(t, ast.Name):
+                    if isinstance(s.value, ast.Call) and astq.callee_name(self.prog, self.fi, s.value) == "numpy.arange":
+                        self.ramps = getattr(self, "ramps", set()) | {t.id}
+                    else:
+                        self.ramps = getattr(self, "ramps", set()) - {t.id}
                     self.assign_name(t.id, self.ev(s.value))
                 elif isinstance(t, (ast.Tuple, ast.List)):
                     parts = None
